@@ -79,12 +79,18 @@ CHECKS["C12"] = dict(
          "try) with a soundness theorem against a nondeterministic execution relation (any conditions, any iteration counts): accepted "
          "code restores all four bookkeeping depths on every normal exit (balanced_sound, function_body_balanced); kernel-checked table "
          "theorems that every element/modifier template and every helper of the repository that touches the lists is accepted; schematic "
-         "theorems for the for / while / lambda templates with X / x at the depth the templates place them. Tie: AST correspondence of the "
-         "transpiler model; depth-tuple oracle after every top-level statement of generated terminating programs, and `n` at the end.",
-    note=COMMON_NOTE + "Partial: the tree-level induction over transpileAst is not yet proved (per-template theorems + AST stream carry it); "
-         "calls are neutral because callee bodies are checked balanced (defn case, helper table) - the induction on call depth is informal; "
+         "theorems for the for / while / lambda templates with X / x at the depth the templates place them; the delta typing is "
+         "translation invariant and weakening-closed (neutral_everywhere: a template balanced at top level is neutral wherever it is "
+         "spliced in); and the TREE-LEVEL theorem transpile_balanced / transpiled_program_restores_depths: for EVERY parsed program "
+         "(every structure, modifier and token kind, any nesting) whose X / x stand at the depth their template undoes (decidable "
+         "predicate bplL: a loop's X in that loop's body, a lambda's X directly in its body — it fails exactly at the X-in-a-while-"
+         "condition / X-in-a-list-item call sites) the transpiler model's output is accepted, hence every normally finishing execution "
+         "restores all four depths — mutual induction over transpileS / wrapLambda / transpileL / transpileLL with a context "
+         "(plain / loop body / lambda body) and its depth invariant. Tie: AST correspondence of the "
+         "transpiler model; the model's bplL / balancedTop verdicts on every generated program (verdict stream); depth-tuple oracle after every top-level statement of generated terminating programs, and `n` at the end.",
+    note=COMMON_NOTE + "Partial: calls are neutral because callee bodies are checked balanced (defn case, helper table) - the induction on call depth is informal; "
          "abnormal termination is outside the property.",
-    technique="Lean 4 proof (abstract interpretation + soundness by mutual induction on derivations; decide +kernel over regenerated templates and helper bodies); AST correspondence; depth oracle",
+    technique="Lean 4 proof (abstract interpretation + soundness by mutual induction on derivations; translation invariance; mutual structural induction over the transpiler model; decide +kernel over regenerated templates and helper bodies); AST correspondence; depth oracle",
     ref="§5 C12")
 CHECKS["C18"] = dict(
     text="Lean: in the transpiler model program text can enter the output only through five constructors; theorems show the generated "
